@@ -213,6 +213,14 @@ class SR:
                 n >>= 1
             return r
         if e.denominator == 2:
+            # registered power (a fresh positive atom standing for base**e): c*base -> c**e * atom, where c**e is a
+            # rational multiple of the square root of a square-free integer (algebraic constant atom)
+            eng = engine()
+            for (ee, base, patom) in eng._pow_hooks:
+                if ee == e:
+                    ratio = _const_ratio(self, base)
+                    if ratio is not None and ratio > 0:
+                        return patom * eng.const_pow(ratio, e)
             s = self.sqrt()
             n = int(e.numerator)
             return s**n
@@ -474,6 +482,7 @@ class Engine:
         self._cmp_cache = {}
         self._ufs = {}
         self._sqrt_of = {}  # poly key -> SR root
+        self._pow_hooks = []  # (exponent, base SR, atom SR)
         self.inputs = []  # (name, atom_id)
         self.stack = []
         self.choice_prefix = []
@@ -576,6 +585,32 @@ class Engine:
         if self.in_run:
             self.solver.add(ax)
         return r
+
+    def register_pow(self, base, e, patom):
+        """patom (a positive atom of the harness) stands for base**e, e = n/2: sound and complete as long as no
+        comparison relates base to patom other than through this power (then base = patom**(1/e) exists)."""
+        ent = (_frac(e), SR.lift(base), patom)
+        if not any(h[0] == ent[0] and h[1].key() == ent[1].key() for h in self._pow_hooks):
+            self._pow_hooks.append(ent)
+
+    def const_pow(self, c, e):
+        """c**e for a positive rational c and e = n/2 as rational * sqrt(square-free integer)."""
+        n = int(e.numerator)
+        half = (n - 1) // 2 if n > 0 else -((-n + 1) // 2)
+        # sqrt(a/b) = sqrt(a*b)/b, a*b = s*s*k
+        a, b = c.numerator, c.denominator
+        k, sq = a * b, 1
+        for q in (2, 3, 5, 7, 11, 13):
+            while k % (q * q) == 0:
+                k //= q * q
+                sq *= q
+        r = math.isqrt(k)
+        if r * r == k:
+            sq, k = sq * r, 1
+        coef = c**half * Fraction(sq, b)
+        if k == 1:
+            return SR.const(coef)
+        return self.sqrt(SR.const(k)) * coef
 
     def register_sqrt(self, square, root):
         self._sqrt_of[square.key()] = root
